@@ -108,17 +108,24 @@ func fragCaseTerm(src string) (string, bool) {
 
 // fragDecCaseTerm: the fragment case and, with withDec, the dump of the dst tree the real Decorator
 // builds from the same source (string ids shared with the go/ast dump)
+var lastAstDumper *astDumper
+
 func fragDecCaseTerm(src string, withDec bool) (string, string, bool) {
 	fset := token.NewFileSet()
 	af, err := parser.ParseFile(fset, "a.go", src, parser.ParseComments)
 	if af == nil || (err != nil && !af.Pos().IsValid()) {
 		return "", "", false
 	}
+	return fragDecCaseTermOn(fset, af, withDec)
+}
+
+func fragDecCaseTermOn(fset *token.FileSet, af *ast.File, withDec bool) (string, string, bool) {
 	var v decorator.VerifLink
 	if pm := safely(func() { v = decorator.VerifFragmentAndLink(fset, af) }); pm != "" {
 		return "", "", false
 	}
 	d := newAstDumper()
+	lastAstDumper = d
 	tree := d.Dump(af)
 	var coms []string
 	for _, cg := range af.Comments {
@@ -225,10 +232,78 @@ func decCorr(c *Ctx) {
 		c.Res.CaseInputs = appendCase(c.Res.CaseInputs, "mismatch_tokens", s)
 		c.Res.Traces++
 	}
-	c.caseSB.WriteString(coqCaseHeader + "From DV Require Import Model.FragSkel Model.Link Model.Fragment Model.FragCases Model.Decorate Model.DecCases Gen.FragTbl Gen.DecTbl Gen.RestTbl.\nLocal Open Scope Z_scope.\n")
+	c.caseSB.WriteString(coqCaseHeader + "From DV Require Import Model.FragSkel Model.Link Model.Fragment Model.FragCases Model.Decorate Model.DecCases Gen.Universe Gen.FragTbl Gen.DecTbl Gen.RestTbl.\nLocal Open Scope Z_scope.\n")
 	c.caseSB.WriteString("Definition dcases : list dcase := [\n" + strings.Join(cases, ";\n") + "].\n")
-	c.caseSB.WriteString("Definition mismatch_decorate := Eval vm_compute in bad_dcases frag_tbl ast_stmt_kinds ast_decl_kinds dec_tbl dcases.\nPrint mismatch_decorate.\n")
-	c.caseSB.WriteString("Definition mismatch_tokens := Eval vm_compute in bad_tokens frag_tbl ast_stmt_kinds ast_decl_kinds dec_tbl rest_tbl dcases.\nPrint mismatch_tokens.\nLocal Close Scope Z_scope.\n")
+	c.caseSB.WriteString("Definition mismatch_decorate := Eval vm_compute in bad_dcases frag_tbl ast_stmt_kinds ast_decl_kinds dec_universe dec_tbl dcases.\nPrint mismatch_decorate.\n")
+	c.caseSB.WriteString("Definition mismatch_tokens := Eval vm_compute in bad_tokens frag_tbl ast_stmt_kinds ast_decl_kinds dec_universe dec_tbl rest_tbl dcases.\nPrint mismatch_tokens.\nLocal Close Scope Z_scope.\n")
 }
 
-func init() { corrs["FRAG"] = fragCorr; corrs["DEC"] = decCorr; corrs["C11"] = decCorr }
+// Correspondence of the whole pipeline  fragment ; link ; decorate ; restore  against the real
+// Decorator followed by the real Restorer: positioned go/ast tree in, restored file (line table,
+// size, comment groups, every position field) out.  Node ids are the go/ast dump's on both sides
+// (the real side through Decorator.Map).
+func pipeCaseTerm(src string) (string, bool) {
+	fset := token.NewFileSet()
+	af, err := parser.ParseFile(fset, "a.go", src, parser.ParseComments)
+	if af == nil || err != nil {
+		return "", false
+	}
+	fc, _, ok := fragDecCaseTermOn(fset, af, false)
+	if !ok {
+		return "", false
+	}
+	d := lastAstDumper
+	dec := decorator.NewDecorator(fset)
+	var df *dst.File
+	var derr error
+	if pm := safely(func() { df, derr = dec.DecorateFile(af) }); pm != "" || derr != nil || df == nil {
+		return "", false
+	}
+	// a dumper view of the dst tree under the go/ast ids
+	d2 := &treeDumper{ids: map[dst.Node]int{}, strs: d.td.strs, refs: map[interface{}]int{}}
+	d2.nodes = make([]dst.Node, len(d.ids))
+	for dn, an := range dec.Map.Ast.Nodes {
+		if id, ok := d.ids[an]; ok && id >= 1 && id <= len(d2.nodes) {
+			d2.ids[dn] = id
+			d2.nodes[id-1] = dn
+		}
+	}
+	r := decorator.NewRestorer()
+	o := observeRestore(d2, df, r)
+	if o.panicked {
+		return "", false
+	}
+	return fmt.Sprintf("mkPC (%s)\n  %d %s %d\n  %s\n  %s", fc, o.base, zl(o.lines), o.size, o.comments, o.pos), true
+}
+
+func pipeCorr(c *Ctx) {
+	var cases []string
+	srcs := append([]string{}, linkExtra...)
+	srcs = append(srcs, sinkSources...)
+	srcs = append(srcs, c08Sources...)
+	srcs = append(srcs, corrSources(c, c.N(3), 1200)...)
+	budget, used := c.Budget(700000), 0
+	for i, s := range srcs {
+		if i%2 == 1 {
+			s = mangle(c.Rng, s)
+		}
+		t, ok := pipeCaseTerm(s)
+		if !ok || used+len(t) > budget {
+			continue
+		}
+		used += len(t)
+		cases = append(cases, t)
+		c.Res.CaseInputs = appendCase(c.Res.CaseInputs, "mismatch_pipeline", s)
+		c.Res.Traces++
+	}
+	c.caseSB.WriteString(coqCaseHeader + "From DV Require Import Model.FragSkel Model.Link Model.Fragment Model.FragCases Model.Decorate Model.DecCases Gen.Universe Gen.FragTbl Gen.DecTbl Gen.RestTbl.\nLocal Open Scope Z_scope.\n")
+	c.caseSB.WriteString("Definition pcases : list pcase := [\n" + strings.Join(cases, ";\n") + "].\n")
+	c.caseSB.WriteString("Definition mismatch_pipeline := Eval vm_compute in bad_pcases frag_tbl ast_stmt_kinds ast_decl_kinds dec_universe dec_tbl rest_tbl pcases.\nPrint mismatch_pipeline.\nLocal Close Scope Z_scope.\n")
+}
+
+func init() {
+	corrs["FRAG"] = fragCorr
+	corrs["DEC"] = decCorr
+	corrs["C11"] = decCorr
+	corrs["PIPE"] = pipeCorr
+}
